@@ -9,7 +9,7 @@ RULE = ("keys from random seeds x 6 sets; messages of length 0, 1 and the length
         "32/64-byte key hash (and the ML-DSA framing) is prepended, plus long ones; deterministic mode, hedged / randomized mode with "
         "the RNG tap serving a scripted tape (the model receives the same tape), contexts and both pre-hash functions through the "
         "API; the repo's NIST signature vectors as external known answers. distinct_nontrivial = distinct signing requests whose "
-        "model answer is a signature.")
+        "model answer is a signature. Twin requests: signing into buffers 1/33/64 bytes longer than SIGNBYTES must write the same signature; output buffers pre-filled with a byte that changes per call.")
 EXPLANATION = ("Props/C05.lean: signing_is_spec_function - the signature returned is the unique output of the specification's rejection loop (SignSpec.Accepts = body of FIPS 204 Alg. 7 / Dilithium 3.1 Sign, written with specification-level objects) on the decoded key, mu = H(tr || M') and rho'' = rhoPrimeSpec of K, mu and exactly the 0 / 32 / 64 bytes drawn; per iteration the model returns accept sigma iff the specification accepts with sigma. The tie makes the model answerable to the code: byte-exact agreement over messages, contexts, modes, crafted keys with long rejection streaks, scripted RNG tapes, NIST signature vectors.")
 ASSUMPTIONS = ["no offline ML-DSA signing oracle exists in the sandbox: ML-DSA signatures are anchored on the Dilithium KATs for the shared body, the OpenSSL KeyGen KATs, and review of the FIPS 204 deltas"]
 _st = {}
